@@ -3,6 +3,7 @@ import Goflow.Gen.C05
 import Goflow.Gen.C03
 import Goflow.Gen.C04
 import Goflow.Gen.C07
+import Goflow.Gen.C16
 import Goflow.Gen.C12
 import Goflow.Gen.C11
 import Goflow.Gen.C09
@@ -85,6 +86,12 @@ def execOp (st : DState) (line : String) : DState × Option (List String) :=
     | none => (st, some ["bad-op"])
     | some k => ({ st with pipes := (pid, k, cid) :: st.pipes.filter (fun e => e.1 != pid),
                            pstate := (pid, ({} : Pipe.State)) :: st.pstate.filter (fun e => e.1 != pid) }, some ["res ok"])
+  | ["race", _, n, plan] =>
+    match Conc.GetOrCreate.parsePlan plan with
+    | none => (st, some ["bad-op"])
+    | some p =>
+      let fin := Conc.GetOrCreate.runPlan true (Conc.GetOrCreate.init n.toNat!) p
+      (st, some ["res ok lost=[" ++ ",".intercalate ((Conc.GetOrCreate.lost fin).map toString) ++ "]"])
   | ["poison", _, _] => (st, some ["res ok"])      -- the model has no message pool: every message starts from Reset()
   | ["pkt", pid, iphex, port, recv, hex] =>
     match st.pipes.lookup pid, parseHex iphex, parseHex hex with
@@ -118,6 +125,7 @@ def genOps (prop : String) (seed n : Nat) : List String :=
   | "C03" => Gen.run seed (Gen.C03.gen n)
   | "C04" => Gen.run seed (Gen.C04.gen n)
   | "C07" => Gen.run seed (Gen.C07.gen n)
+  | "C16" => Gen.C16.gen n
   | "C12" => Gen.run seed (Gen.C12.gen n)
   | "C11" => Gen.run seed (Gen.C11.gen n)
   | "C09" => Gen.run seed (Gen.C09.gen n)
